@@ -153,7 +153,7 @@ def parse_trace(path):
     return decisions, events
 
 
-def run_rq(root, args, threads=1, sched=None, trace=None, preload_env=None, cwd=None, timeout=HORIZON, use_d=True, mem_limit=None, threads_env=False, _retry=False, as_nobody=False):
+def run_rq(root, args, threads=1, sched=None, trace=None, preload_env=None, cwd=None, timeout=HORIZON, use_d=True, mem_limit=None, threads_env=False, _retry=False, as_nobody=False, fsize_limit=None):
     """Run `rapidquilt push <args>` on workspace `root`.
     threads>1: under the scheduler; sched = list of worker ids (schedule script), None/[] = serial default.
     trace: path of a trace file to (re)create; preload_env: extra env for the LD_PRELOAD shim."""
@@ -176,11 +176,14 @@ def run_rq(root, args, threads=1, sched=None, trace=None, preload_env=None, cwd=
         # without -d the workspace is the current directory
         cwd = os.path.dirname(os.path.abspath(root)) if use_d else root
     pre = None
-    if mem_limit:
+    if mem_limit or fsize_limit:
         import resource
 
         def pre():
-            resource.setrlimit(resource.RLIMIT_AS, (mem_limit, mem_limit))
+            if mem_limit:
+                resource.setrlimit(resource.RLIMIT_AS, (mem_limit, mem_limit))
+            if fsize_limit:   # `ulimit -f`: a write beyond it raises SIGXFSZ - or fails with EFBIG for a process that does not die of that
+                resource.setrlimit(resource.RLIMIT_FSIZE, (fsize_limit, fsize_limit))
     env['RQ_VERIF_STALL_SECS'] = '30'
     try:
         p = subprocess.run(cmd, env=env, stdout=subprocess.PIPE, stderr=subprocess.PIPE, timeout=timeout, cwd=cwd, preexec_fn=pre)
